@@ -65,10 +65,19 @@ _ZOO = None
 _MODELS: dict = {}
 
 
+_THOROUGH = False
+
+
+def prepare(ctx: Ctx):
+    global _THOROUGH, _ZOO
+    if ctx.thorough != _THOROUGH:
+        _THOROUGH, _ZOO = ctx.thorough, None
+
+
 def zoo():
     global _ZOO
     if _ZOO is None:
-        _ZOO = [e for e in Z.zoo() if e.finding not in _UNUSABLE]
+        _ZOO = [e for e in Z.zoo(thorough=_THOROUGH) if e.finding not in _UNUSABLE]
     return _ZOO
 
 
@@ -303,9 +312,30 @@ def _check_entry(ctx, e, deep):
                                     {"op": "perm", "entry": e.name, "h": h, "w": w, "seed": seed, "perm": perm, "observed_rel_diff": r})
 
 
+def _stateful_modules(ctx, e):
+    """`.eval()` must switch every stochastic / statistics-updating module off; dropout entries must be live in train mode
+    (so that the check is not vacuous)"""
+    from torch import nn
+
+    m = model_of(e)
+    ctx.count((e.name, "eval-flags"), True, bucket="oracle/eval-flags")
+    left_on = [n for n, sub in m.named_modules() if sub.training]
+    if left_on:
+        yield Violation(f"{e.name}:train-flag-after-eval", f"{e.name}: modules still in training mode after eval(): {left_on[:5]}",
+                        {"op": "evalflags", "entry": e.name, "modules": left_on[:20]})
+    stoch = [n for n, sub in m.named_modules()
+             if isinstance(sub, (nn.Dropout, nn.Dropout2d, nn.Dropout3d, nn.AlphaDropout)) and sub.p > 0]
+    if "dropout" in e.tags:
+        ctx.count((e.name, "dropout-live"), True, bucket="oracle/dropout-live")
+        if not stoch:
+            yield Violation(f"{e.name}:dropout-entry-has-no-dropout", f"{e.name}: the dropout zoo entry contains no dropout module with p > 0",
+                            {"op": "evalflags", "entry": e.name})
+
+
 def oracle(ctx: Ctx, deep: bool = False):
     deep = deep or ctx.thorough
     for e in zoo():
+        yield from _stateful_modules(ctx, e)
         yield from _check_entry(ctx, e, deep)
     # the normalisation functions themselves on float batches: statistics and normalised sample identical alone / batched,
     # and un-normalisation inverts
